@@ -5,7 +5,7 @@ import sys
 from os import linesep
 
 
-def expected(kind, value, modpath=None):
+def expected(kind, value, modpath=None, filename=None):
     from code_data import CodeData
 
     from .api import canon_json
@@ -16,7 +16,7 @@ def expected(kind, value, modpath=None):
         code = compile(eval(value, {"linesep": linesep}), "<string>", "exec")
     elif kind == "file":
         with open(value) as f:
-            code = compile(f.read(), str(value), "exec")
+            code = compile(f.read(), filename or str(value), "exec")
     elif kind == "m":
         sys.path.insert(0, modpath)
         try:
